@@ -184,3 +184,11 @@ for _pid in ("C05", "C06"):
 REGISTRY["C08"]["module_groups"] = [["inject", "robotinit"]]
 REGISTRY["C10"]["module_groups"] = [_ROBOT_MODS, ["reset"], ["inject", "robotinit"]]
 REGISTRY["C05"]["standins"]["quick"]["bounded: real NotifierDelay on a fake HAL implementing the assumed contract, body-duration patterns (one iteration per period)"] = [PY, "native/replay_c16.py"]
+# --- every property also runs the sidecar groups that verify the other functions of its anchored files it depends on
+# (tools/anchor_audit.py): the state-definition functions for the state-machine properties, the tunable module for the
+# duration tunables of C02, robotInit's component wiring (which names the NetworkTables key families) for C09 / C11
+for _pid in ("C01", "C02", "C04", "C13"):
+    REGISTRY[_pid]["module_groups"] = [["sm"], ["smdef"]]
+REGISTRY["C02"]["module_groups"] = [["sm"], ["smdef"], ["tunable"]]
+REGISTRY["C09"]["module_groups"] = [["tunable"], ["inject", "robotinit"]]
+REGISTRY["C11"]["module_groups"] = REGISTRY["C11"]["module_groups"] + [["inject", "robotinit"]]
